@@ -194,13 +194,12 @@ def _shards(tier):
                ("dk >= 0", "len(ev) < %d" % (n - 1), "dq < 2"), ("dk >= 0", "len(ev) < %d" % (n - 1), "dq >= 2")]
         out += [("dk == %d" % k, "len(ev) == %d" % (n - 1), q) for k in range(n - 1) for q in ("dq < 2", "dq >= 2")]
         return out
-    # thorough: split further on the last events (always satisfiable for len >= 3)
-    out = [("dk == -1", "len(ev) < %d" % n), ("dk >= 0", "len(ev) < %d" % (n - 2))]
-    out += [("dk == -1", "len(ev) == %d" % n, "ev[-1] == %d" % a, "ev[-2] == %d" % b)
-            for a in range(P + 1) for b in range(P + 1)]
-    out += [("dk == %d" % k, "len(ev) == %d" % ln, "dq == %d" % q, "ev[-1] == %d" % a)
-            for ln in (n - 2, n - 1) for k in range(ln) for q in range(P + 1) for a in range(P + 1)
-            if not (k == ln - 1 and a == P)]      # dk == ln - 1 needs ln appends: the last event is no iteration
+    # thorough: shard preconditions are evaluated after the harness's own, so only splits on dk/dq/dr
+    # (decided before the events are enumerated) reduce the work of a shard
+    out = [("dk == -1", "len(ev) == %d" % n), ("dk == -1", "len(ev) < %d" % n), ("dk >= 0", "len(ev) < %d" % (n - 2))]
+    out += [("dk == %d" % k, "len(ev) == %d" % (n - 2)) for k in range(n - 2)]
+    out += [("dk == %d" % k, "len(ev) == %d" % (n - 1), "dq == %d" % q, d)
+            for k in range(n - 1) for q in range(P + 1) for d in ("dr", "not dr")]
     return out
 
 
